@@ -412,6 +412,55 @@ theorem clone_refines (m : Matrix α) (h : m.Inv) : m.clone = .ok m :=
     different matrices equal -/
 example : (⟨[1, 2], 1, 2⟩ : Matrix Nat).eqP ⟨[1, 2, 3, 4], 1, 2⟩ = true := by decide
 
+/-! ### the slice algebra is its set semantics -/
+
+/-- **`Slice::accepts` is membership in the denoted set**, for every slice expression (any
+    nesting of `not` / `and` / `or`) and every index: `All` = everything, `None` = nothing,
+    `Single(i)` = `{i}`, `Range(a..b)` = `{k | a ≤ k < b}` (empty for reversed and empty ranges),
+    `Not` = complement, `And` = intersection, `Or` = union. -/
+theorem accepts_iff_mem (s : Slice) (k : Nat) : s.accepts k = true ↔ s.Mem k :=
+  Matrix.accepts_iff_mem s k
+
+/-- `Slice2D::accepts` is membership in the product of the two sets. -/
+theorem accepts2D_iff_mem (rows columns : Slice) (r c : Nat) :
+    Slice.accepts2D rows columns r c = true ↔ rows.Mem r ∧ columns.Mem c := by
+  simp [Slice.accepts2D, Matrix.accepts_iff_mem]
+
+/-- The executable set semantics the driver compares with (`Slice.members`, computed by list
+    complement / intersection / union without calling `accepts`) lists exactly the accepted
+    indexes below `n`. -/
+theorem members_iff_accepts (n : Nat) (s : Slice) (k : Nat) :
+    k ∈ s.members n ↔ k < n ∧ s.accepts k = true :=
+  Matrix.mem_members n s k
+
+/-- a reversed or empty range accepts nothing, and its complement everything -/
+theorem reversed_range_empty (a b : Nat) (h : b ≤ a) (k : Nat) :
+    (Slice.range a b).accepts k = false ∧ (Slice.not (Slice.range a b)).accepts k = true := by
+  have : (Slice.range a b).accepts k = false := by
+    simp only [Slice.accepts, Bool.and_eq_false_iff, decide_eq_false_iff_not]; omega
+  refine ⟨this, ?_⟩
+  show (!(Slice.range a b).accepts k) = true
+  rw [this]; rfl
+
+/-! ### a supply of values shared by a sequence of insertions -/
+
+/-- **One iterator lent (`by_ref`) to any sequence of `insert_row_with` / `insert_column_with`
+    calls**: every successful insertion takes its values from the front of what is left, exactly as
+    many as it uses; a call with too few values left or an invalid position panics without
+    touching the matrix; the matrix left behind, the panic flags and what the iterator yields
+    afterwards are those of the list-of-rows model, and the invariant holds throughout. -/
+theorem shared_supply_refines (m : Matrix α) (h : m.Inv) (steps : List (Bool × Nat))
+    (values : List α) :
+    (m.sharedInserts steps values).1.Inv ∧
+    abs (m.sharedInserts steps values).1 = (Rows.sharedInserts (abs m) steps values).1 ∧
+    (m.sharedInserts steps values).2 = (Rows.sharedInserts (abs m) steps values).2 :=
+  sharedInserts_spec steps m h values
+
+/-- row-then-column from one supply of six values on a 2×2 matrix: the row takes two, the column
+    three, one is left -/
+example : (⟨[1, 2, 3, 4], 2, 2⟩ : Matrix Nat).sharedInserts [(true, 1), (false, 0)] [5, 6, 7, 8, 9, 10] =
+    (⟨[7, 1, 2, 8, 5, 6, 9, 3, 4], 3, 3⟩, [false, false], [10]) := by decide
+
 /-! ### the list-of-rows operations are the obvious ones -/
 
 /-- transposition of a well-formed list of rows exchanges the coordinates of every cell -/
